@@ -213,7 +213,7 @@ CLAIMED = {
              "reference chown (Memfs/RefineChown.v); and for whole histories (Memfs/RefineHistory.v): a reference filesystem working on the flat tree "
              "alone (resolving its own arguments against the tree's cwd) such that from every well-formed kind-sound state - the fresh "
              "filesystem in particular - ANY history of mkfile, mkdir_p / mkdir_m, write_all / write_lines, append_all / append_line / append_lines, read_all / read_lines, "
-             "remove, remove_all (off the root), symlink, readlink / readlink_abs, set_cwd, cwd, abs, chown without follow and the queries "
+             "remove, remove_all (off the root), symlink, readlink / readlink_abs, move_p (Memfs/RefineMove.v), set_cwd, cwd, abs, chown without follow and the queries "
              "(exists, is_dir, is_file, is_symlink, is_symlink_dir, is_exec, is_readonly, mode, owner, uid, gid) gives call by call exactly the "
              "reference's value or error kind and ends in exactly the reference's tree (history_refines). move_p is specified exactly and proved in Memfs/WfMove.v (C09). "
              "The mirror is tied to the real Memfs by a model-guided BFS of every reachable state of a bounded namespace x the full call "
